@@ -59,7 +59,7 @@ def _writes_to_file(body, t):
 def lock_region_rule(crate, prop, fn_path="export::export_and_merge", registry_getter="export::get_export_paths",
                      merge_fn="export::merge"):
     r = Result("C05.R1", "one Mutex guard is live across registry lookup, file open/read/merge/write/sync and registry update in export_and_merge")
-    body = crate.body(fn_path)
+    body = crate.ibody(fn_path)
     if body is None:
         r.fail(prop, "anchor-missing " + fn_path, "function %s not found in crate %s" % (fn_path, crate.name))
         return r
@@ -113,27 +113,30 @@ def single_writer_rule(crate, prop, syn=None, writer="export::export_and_merge",
                        allowed_statics=("EXPORT_PATHS",)):
     r = Result("C05.R2", "only export_and_merge creates/opens-for-write files, only export_to creates directories, only get_export_paths touches EXPORT_PATHS and only export_and_merge calls it; no other process-wide state")
     seen_writer = seen_dir = seen_static = seen_getter_call = 0
+    # helpers the writer was split into are the writer: a function all of whose call sites lie in the writer (or in such helpers)
+    writer_parts = {p for p in crate.owned_by(writer) if p.startswith("export::")}
+    dir_parts = {p for p in crate.owned_by(dir_creator) if p.startswith("export::")}
     for body in crate.bodies:
         for b, t in body.calls():
             f, l = _loc(body, b)
             owner = body.path.split("::{closure")[0]
             if fn_matches(t, *FILE_MUTATE):
                 r.inst(fn=body.path, callee=_short(t), kind="file-mutation", where="%s:%s" % (f, l))
-                if owner != writer:
+                if owner not in writer_parts:
                     r.fail(prop, "writer-outside-owner %s -> %s" % (owner, _short(t)),
                            "file-system mutation %s outside %s" % (_short(t), writer), f, l)
                 else:
                     seen_writer += 1
             elif fn_matches(t, *DIR_CREATE):
                 r.inst(fn=body.path, callee=_short(t), kind="dir-creation", where="%s:%s" % (f, l))
-                if owner != dir_creator:
+                if owner not in dir_parts:
                     r.fail(prop, "mkdir-outside-owner %s -> %s" % (owner, _short(t)),
                            "directory creation %s outside %s" % (_short(t), dir_creator), f, l)
                 else:
                     seen_dir += 1
             elif fn_matches(t, re.escape(registry_getter) + "$"):
                 r.inst(fn=body.path, callee=_short(t), kind="registry-access", where="%s:%s" % (f, l))
-                if owner != writer:
+                if owner not in writer_parts:
                     r.fail(prop, "registry-access-outside-owner %s" % owner,
                            "%s() called from %s; only %s may look at the registry (check and write must share one critical section)" % (registry_getter, owner, writer), f, l)
                 else:
@@ -265,7 +268,7 @@ def _bool_switch(body, call_block):
 
 def idempotence_rule(crate, prop, fn_path="export::export_and_merge", merge_fn="export::merge"):
     r = Result("C05.R3", "on the already-registered-file branch, reopen/read/merge/rewrite/record is dominated by the false edge of `entry.contains(&type_name)`")
-    body = crate.body(fn_path)
+    body = crate.ibody(fn_path)
     if body is None:
         r.fail(prop, "anchor-missing " + fn_path, "function not found")
         return r
@@ -314,22 +317,12 @@ def idempotence_rule(crate, prop, fn_path="export::export_and_merge", merge_fn="
 
 def record_after_success_rule(crate, prop, fn_path="export::export_and_merge"):
     r = Result("C17.R2", "every registry insertion is dominated by the success edges of write_all? and sync_all? (a failed export is not recorded)")
-    body = crate.body(fn_path)
+    body = crate.ibody(fn_path)
     if body is None:
         r.fail(prop, "anchor-missing " + fn_path, "function not found")
         return r
-    tries = try_edges(body)
-    succ_write, succ_sync = [], []
-    for e in tries:
-        if e["arg"] is None:
-            continue
-        org = origins(body, e["arg"], through_try=False)
-        for o in org:
-            if o["kind"] == "call":
-                if fn_matches(o["t"], r"io::Write::write_all$") and _writes_to_file(body, o["t"]):
-                    succ_write.append(e["cont"])
-                if fn_matches(o["t"], r"fs::File::sync_all$"):
-                    succ_sync.append(e["cont"])
+    succ_write = M.success_conts(crate, body, r"io::Write::write_all$", _writes_to_file)
+    succ_sync = M.success_conts(crate, body, r"fs::File::sync_all$")
     n = 0
     for b, t in body.calls():
         if body.is_cleanup(b):
@@ -482,7 +475,7 @@ def _result_fate(body, local, seen):
 
 def registry_key_rule(crate, prop, fn_path="export::export_and_merge", normaliser=r"export::path::absolute$"):
     r = Result("C06.R1", "the registry key (argument of get_mut/insert on the registry) originates from a successful path::absolute(..) on every call chain into export_and_merge")
-    body = crate.body(fn_path)
+    body = crate.ibody(fn_path)
     if body is None:
         r.fail(prop, "anchor-missing " + fn_path, "function not found")
         return r
@@ -561,7 +554,7 @@ def _trace(crate, callers, body, local, normaliser, chain, chains, depth):
 
 def first_touch_rule(crate, prop, fn_path="export::export_and_merge"):
     r = Result("C06.R2", "on the registry-miss branch the file is opened truncating (File::create or OpenOptions.truncate(true)), so stale content cannot leak")
-    body = crate.body(fn_path)
+    body = crate.ibody(fn_path)
     if body is None:
         r.fail(prop, "anchor-missing " + fn_path, "function not found")
         return r
@@ -939,6 +932,10 @@ def written_text_rule(crate, prop, rule="C04.R9"):
                 c = M.callee(o["t"]) or "?"
                 if any(re.search(a, c) for a in ALLOWED):
                     out.append(("generated", c))
+                elif re.search(r"Option::<T>::unwrap_or$", c) and len(o["t"]["args"]) == 2 and all(op_place(a) is not None for a in o["t"]["args"]):
+                    # `x.unwrap_or(y)`: the text is x's or y's - both must be the generated module
+                    for a in o["t"]["args"]:
+                        out += classify(body, op_place(a)["l"], depth) or [("other", "operand of unwrap_or")]
                 elif re.search(SUBST, c):
                     out.append(("substitute", c))
                 elif c.startswith("export::") and depth < 3 and crate.body(c) is not None:
@@ -1062,7 +1059,7 @@ def entry_reaches_writer_rule(crate, prop, rule="C11.R10"):
             r.fail(prop, "anchor-missing " + path, "not found")
             continue
         stage = {blk for blk, t in b.calls() if not b.is_cleanup(blk) and fn_matches(t, nxt)}
-        errs = {blk for blk, t in b.calls() if not b.is_cleanup(blk) and fn_matches(t, r"FromResidual")}
+        errs = {blk for blk, t in b.calls() if not b.is_cleanup(blk) and fn_matches(t, r"FromResidual")} | M.error_blocks(b)
         rets = [blk for blk in range(b.n) if not b.is_cleanup(blk) and b.term(blk)["k"] == "return"]
         ok = bool(stage) and b.all_paths_pass(0, stage | errs, rets)
         r.inst(fn=path, next_stage=nxt.strip("$"), on_every_success_path=ok)
